@@ -24,9 +24,9 @@ PLANS = {
     "C01": dict(
         mc=[("MC_Core_q.cfg", "code as it is: pages 3, versions 2, WAL 4, TXIDs 5, gens 4, 1 down, all checkpoint modes, checkpoint sub-steps interleaved with the application")],
         mc_thorough=[("MC_Core_asis.cfg", "same with versions 3"), ("MC_Core_asis4.cfg", "same with versions 4"), ("MC_Core_pinned.cfg", "NEGATIVE CONTROL: the pinned transitions (before the fix: commits) - TLC must find the F1/F2/G1 data-loss histories")],
-        sim=[("Sim_Core_run.cfg", 80, 1200, 40), ("Sim_Core_gated.cfg", 100, 2000, 45)],
-        dump=("Dump_Core.cfg", 250, 6000),
-        random=dict(n=80, n_thorough=1500, length=28, with_down=False, with_state_loss=False),
+        sim=[("Sim_Core_run.cfg", 80, 600, 40), ("Sim_Core_gated.cfg", 100, 900, 45)],
+        dump=("Dump_Core.cfg", 250, 2500),
+        random=dict(n=80, n_thorough=800, length=28, with_down=False, with_state_loss=False),
         invariants=["C01_RestoreEqualsSource", "C01_RestoreIntegrity"],
         witnesses=["F1", "F2", "F3", "G1"],
         nontrivial="distinct schedule with at least one acknowledgement after application writes (restore compared with the source)",
@@ -34,9 +34,9 @@ PLANS = {
     "C04": dict(
         mc=[("MC_Core_q.cfg", "code as it is (stop/start of the same object, new process, crash, app activity incl. all checkpoint modes while down); versions 2")],
         mc_thorough=[("MC_Core_asis.cfg", "versions 3"), ("MC_Core_asis4.cfg", "versions 4"), ("MC_Core_down2.cfg", "2 downs")],
-        sim=[("Sim_Core_down.cfg", 250, 2500, 45)],
+        sim=[("Sim_Core_down.cfg", 250, 1200, 45)],
         dump=None,
-        random=dict(n=200, n_thorough=2500, length=34, with_down=True, with_state_loss=True),
+        random=dict(n=200, n_thorough=1200, length=34, with_down=True, with_state_loss=True),
         directed=True,
         invariants=["C04_AckMeansReplicaAtLocalPos", "C04_ResnapshotAfterLoss", "C01_RestoreEqualsSource"],
         witnesses=["F1", "F2", "F3"],
@@ -45,9 +45,9 @@ PLANS = {
     "C02": dict(
         mc=[("MC_Core_q.cfg", "NoUncommitted: no page version of an open or rolled-back transaction in any level-0 file; versions 2")],
         mc_thorough=[("MC_Core_asis.cfg", "versions 3"), ("MC_Core_asis4.cfg", "versions 4")],
-        sim=[("Sim_Core_run.cfg", 100, 1000, 40), ("Sim_Core_gated.cfg", 80, 1000, 45)],
+        sim=[("Sim_Core_run.cfg", 100, 600, 40), ("Sim_Core_gated.cfg", 80, 600, 45)],
         dump=None,
-        random=dict(n=120, n_thorough=1500, length=30, with_down=False, with_state_loss=False, tx_heavy=True),
+        random=dict(n=120, n_thorough=800, length=30, with_down=False, with_state_loss=False, tx_heavy=True),
         invariants=["C02_EveryTxidIsACommittedState", "C02_Level0Gapless"],
         witnesses=[],
         audit=True, chunked=True,
@@ -56,9 +56,9 @@ PLANS = {
     "C14": dict(
         mc=[("MC_Core_q.cfg", "litestream steps write only its own bookkeeping page (SeqPg) - structural in Core.tla")],
         mc_thorough=[],
-        sim=[("Sim_Core_run.cfg", 100, 1000, 40)],
+        sim=[("Sim_Core_run.cfg", 100, 600, 40)],
         dump=None,
-        random=dict(n=100, n_thorough=1200, length=30, with_down=True, with_state_loss=False),
+        random=dict(n=100, n_thorough=700, length=30, with_down=True, with_state_loss=False),
         invariants=["C14_LitestreamStepKeepsAppData", "C14_SameAsControlRun", "C14_BookkeepingOnly"],
         witnesses=[],
         control=True, contention=True,
